@@ -2,7 +2,7 @@
    what the AST-level specification (model/J2T.v, strict policy) computes:
      j2t_walk_refines_spec / j2t_walk_top_refines_spec   (domain: walk_ok_opts, defs_plain, wdom below)
    plus: kind mismatches on canonical text (walk_kind_mismatch, walk_num_mismatch, walk_int_mismatch), the string-for-a-non-string
-   descriptor peculiarity (walk_string_mismatch_skips, j2t_walk_string_mismatch_silent), the "-0" drift (walk_neg_zero_double),
+   descriptor case (walk_string_mismatch, j2t_walk_string_mismatch_rejected, walk_rejects_kind_mismatch), the "-0" drift (walk_neg_zero_double),
    and fuel adequacy for ANY text (walk_short, walk_fuel_adequate, j2t_walk_never_fuel).
    Token-level lemmas are in J2TWalkTok.v. *)
 From Coq Require Import ZArith List Bool Lia.
@@ -687,12 +687,11 @@ Section Mismatch.
     j2t_val strict D (jopts_of o) TDouble 1 (JNum [45; 48]) = Ok (enc_int 8 (2 ^ 63)).
   Proof. split; vm_compute; reflexivity. Qed.
 
-  (* PECULIARITY (as coded): a JSON string for a descriptor that takes none is NOT an error: the value is dropped and the walk
-     goes on with the text after it — at the top level the conversion succeeds with an empty output, where the specification
-     (j2t_val) says Err E_KIND. *)
-  Theorem walk_string_mismatch_skips : forall x t f r,
+  (* a JSON string at a descriptor that does not take one (bool, containers, numbers without String2Int64) is a type mismatch
+     (since /repo 11a56b9; before, it fell out of the switch: finding 212) *)
+  Theorem walk_string_mismatch : forall x t f r,
     jbytes_okb x = true -> utf8_valid x = true -> kind_ok (jopts_of o) t (JStr x) = false ->
-    walk D o (S f) t (quote_ref x ++ r) = walk D o f t r.
+    walk D o (S f) t (quote_ref x ++ r) = WErr W_DISMATCH.
   Proof.
     intros x t f r Hw Hu Hk.
     pose proof (decode_value_quote x r Hw) as H. pose proof (tok_string_quote x Hw Hu) as Hts.
@@ -700,17 +699,58 @@ Section Mismatch.
     destruct t; cbn [kind_ok jopts_of o_str2int] in Hk; try discriminate Hk; cbn [andb is_string_ty is_int_ty]; rewrite ?Hk, ?andb_false_r; reflexivity.
   Qed.
 
-  Corollary j2t_walk_string_mismatch_silent : forall x t,
+  (* the former witness of finding 212, now a regression statement: the top-level conversion is an error on both sides *)
+  Corollary j2t_walk_string_mismatch_rejected : forall x t,
     jbytes_okb x = true -> utf8_valid x = true -> kind_ok (jopts_of o) t (JStr x) = false ->
-    j2t_walk D o t (json_print (JStr x)) = TOk [] /\ exists c, j2t_val strict D (jopts_of o) t 1 (JStr x) = Err c.
+    j2t_walk D o t (json_print (JStr x)) = TErr W_DISMATCH /\ exists c, j2t_val strict D (jopts_of o) t 1 (JStr x) = Err c.
   Proof.
     intros x t Hw Hu Hk. split.
     - assert (Hs : is_string_ty t = false) by (destruct t; try reflexivity; discriminate Hk).
       cbn [json_print]. unfold j2t_walk, quote_ref at 1. rewrite Hs. cbn [andb].
       change (34 :: escape x ++ [34]) with (quote_ref x).
-      pose proof (walk_string_mismatch_skips x t (length (quote_ref x)) [] Hw Hu Hk) as H. rewrite app_nil_r in H. rewrite H.
-      pose proof (quote_ref_length x). destruct (length (quote_ref x)); [lia|]. reflexivity.
+      pose proof (walk_string_mismatch x t (length (quote_ref x)) [] Hw Hu Hk) as H. rewrite app_nil_r in H. rewrite H. reflexivity.
     - apply j2t_rejects_kind_mismatch_lemma. exact Hk.
+  Qed.
+
+  (* the clean error side: EVERY kind contradiction at the value the walk stands on is an error of the walk (null excepted: it is
+     reported to the enclosing container, which drops the member; at the top level it is an error as well) *)
+  Theorem walk_rejects_kind_mismatch : forall j t f r,
+    json_wf j = true -> json_utf8 j = true -> stop r = true ->
+    kind_ok (jopts_of o) t j = false -> j <> JNull ->
+    walk D o (S f) t (json_print j ++ r) = WErr W_DISMATCH.
+  Proof.
+    intros j t f r Hw Hu Hr Hk Hn.
+    destruct j as [| b | l | x | xs | ms].
+    - contradiction.
+    - apply walk_kind_mismatch; [exact Hk | exact I].
+    - cbn [json_print]. apply walk_num_mismatch; [exact Hw | exact Hr |].
+      destruct t; cbn [kind_ok] in Hk; try discriminate Hk; reflexivity.
+    - cbn [json_print]. apply walk_string_mismatch; [exact Hw | exact Hu | exact Hk].
+    - apply walk_kind_mismatch; [exact Hk | exact I].
+    - apply walk_kind_mismatch; [exact Hk | exact I].
+  Qed.
+
+  (* top level (BinaryConv.do + doGo), for a descriptor that is not string-typed (for STRING / binary a text that does not start with
+     the quote is, as documented, not JSON but the string itself) *)
+  Theorem j2t_walk_rejects_kind_mismatch : forall j t,
+    json_wf j = true -> json_utf8 j = true -> is_string_ty t = false -> kind_ok (jopts_of o) t j = false ->
+    exists c, j2t_walk D o t (json_print j) = TErr c.
+  Proof.
+    intros j t Hw Hu Hs Hk.
+    destruct (print_starts j Hw) as (c & tl & E & _).
+    unfold j2t_walk. rewrite E. rewrite Hs. cbn [andb]. rewrite <- E.
+    destruct j as [| b | l | x | xs | ms].
+    - exists W_OTHER. cbn. reflexivity.
+    - exists W_DISMATCH. pose proof (walk_rejects_kind_mismatch (JBool b) t (length (json_print (JBool b))) [] Hw Hu eq_refl Hk) as H.
+      rewrite app_nil_r in H. rewrite H; [reflexivity | discriminate].
+    - exists W_DISMATCH. pose proof (walk_rejects_kind_mismatch (JNum l) t (length (json_print (JNum l))) [] Hw Hu eq_refl Hk) as H.
+      rewrite app_nil_r in H. rewrite H; [reflexivity | discriminate].
+    - exists W_DISMATCH. pose proof (walk_rejects_kind_mismatch (JStr x) t (length (json_print (JStr x))) [] Hw Hu eq_refl Hk) as H.
+      rewrite app_nil_r in H. rewrite H; [reflexivity | discriminate].
+    - exists W_DISMATCH. pose proof (walk_rejects_kind_mismatch (JArr xs) t (length (json_print (JArr xs))) [] Hw Hu eq_refl Hk) as H.
+      rewrite app_nil_r in H. rewrite H; [reflexivity | discriminate].
+    - exists W_DISMATCH. pose proof (walk_rejects_kind_mismatch (JObj ms) t (length (json_print (JObj ms))) [] Hw Hu eq_refl Hk) as H.
+      rewrite app_nil_r in H. rewrite H; [reflexivity | discriminate].
   Qed.
 End Mismatch.
 
@@ -962,7 +1002,6 @@ Section Fuel.
       | |- short _ (match go_parse_int ?x with _ => _ end) => destruct (go_parse_int x)
       | |- short _ (match go_parse_float ?x with _ => _ end) => destruct (go_parse_float x)
       end; try exact I; try exact Hl.
-      apply (short_trans r); [apply IH|exact Hl].
     - destruct t; try exact I.
       + destruct (nth_error D i) as [sd|]; [|exact I].
         destruct (peek r) as [[tk p]|] eqn:Hp; [|apply (short_trans r); [apply struct_loop_short; exact IH|lia]].
@@ -1085,7 +1124,6 @@ Section FuelAdequate.
       | |- nofuel (match go_parse_int ?x with _ => _ end) => destruct (go_parse_int x)
       | |- nofuel (match go_parse_float ?x with _ => _ end) => destruct (go_parse_float x)
       end; try nf.
-      apply IH. lia.
     - destruct t; try nf.
       + destruct (nth_error D i) as [sd|]; [|nf].
         assert (Hloop : nofuel (struct_loop o (walk D o f) f sd r (bm_init sd) []))
